@@ -402,6 +402,20 @@ def dfxp_site(ctx, report, ev, folder):
             seen.add("dur")
     if seen != {"end", "dur"}:
         raise AnalysisError(f"_find_and_convert_times: cases found {sorted(seen)}")
+    # which inputs are refused: exactly 'no begin' and 'neither end nor dur'; what is accepted has what it reads
+    B, E_, D = "truthy($p_tag.get('begin'))", "truthy($p_tag.get('end'))", "truthy($p_tag.get('dur'))"
+    wrong = []
+    for o in outs:
+        c = dict(o.conds)
+        if isinstance(o.value, Raised):
+            legit = c.get(B) is False or (c.get(E_) is False and c.get(D) is False)
+            if not legit:
+                wrong.append({"refused_although": {k: v for k, v in c.items() if k in (B, E_, D)}})
+        elif isinstance(o.value, tuple):
+            if c.get(B) is not True or (c.get(E_) is not True and c.get(D) is not True):
+                wrong.append({"accepted_although": {k: v for k, v in c.items() if k in (B, E_, D)}})
+    report.check(not wrong, "R-MUSTRAISE", fct, "a cue is refused exactly when it has no begin, or neither end nor dur",
+                 {"outcomes": len(outs), "wrong": wrong[:3]}, "2")
     report.count("conversion_sites")
 
     # grammar
